@@ -52,6 +52,7 @@ type world struct {
 	retain []*retained
 	attEvs []AttEv
 	parseViol []Violation
+	stabViol  []Violation
 	// rare-condition probes
 	rare map[string]int
 }
